@@ -114,6 +114,8 @@ def call(app, env, max_chunks=100000):
     try:
         it = app(env, start_response)
     except BaseException as e:   # noqa
+        if type(e).__name__ in ('Hang', 'Horizon'):
+            raise                # the harness' own watchdog / step horizon: not an answer of the application
         c.escaped = e
         c.errors = env['wsgi.errors'].text() if hasattr(env.get('wsgi.errors'), 'text') else ''
         return c
@@ -130,6 +132,8 @@ def call(app, env, max_chunks=100000):
                 c.iter_error = 'too many chunks'
                 break
     except BaseException as e:   # noqa
+        if type(e).__name__ in ('Hang', 'Horizon'):
+            raise
         c.iter_error = e
     finally:
         cl = getattr(it, 'close', None)
